@@ -1,6 +1,6 @@
 (* C07 - input is either fully understood or loudly rejected, never half-used. *)
 From Coq Require Import String Ascii List Bool Arith.
-From Wrap Require Import Base.Str Syntax.Ast Parse.Peg Parse.PegProofs Parse.Build Parse.Spec.
+From Wrap Require Import Base.Str Syntax.Ast Inst.Model Parse.Peg Parse.PegProofs Parse.Build Parse.Spec.
 From Wrap Require gen.Grammar.
 Import ListNotations.
 Open Scope string_scope.
@@ -8,3 +8,29 @@ Open Scope string_scope.
 Theorem C07_grammar_is_spec : Grammar.grammar = spec_grammar.
 Proof. vm_compute. reflexivity. Qed.
 Print Assumptions C07_grammar_is_spec.
+
+(* Whatever the interpreter matches - any grammar, any expression, any state - the text it consumed is an interleaving
+   of filler (white space, comments) and of the texts matched by its terminals, in order; the leaves of the match tree
+   are exactly the terminal texts not under a Suppress.  No character is stepped over in any other way. *)
+Theorem C07_consumed_is_covered : forall g f e st its st', interp g f e st = Match its st' ->
+  exists tr : trace, Cov (rest st) (map snd tr) (rest st') /\ kept tr = leaves its.
+Proof.
+  intros g f e st its st' H. pose proof (interp_traced run_term g run_term_traced f e st) as T.
+  unfold interp in H. rewrite H in T. exact T.
+Qed.
+Print Assumptions C07_consumed_is_covered.
+
+(* Module.parseString accepts only when that covering reaches the end of the text: a truncated, unbalanced or
+   otherwise incomplete sequence of declarations leaves a remainder and is rejected (ParseException). *)
+Theorem C07_accepted_covers_whole_text : forall fuel text its st',
+  parse_text spec_grammar fuel text = Match its st' ->
+  exists tr : trace, Cov (expandtabs (chars_of text)) (map snd tr) [] /\ kept tr = leaves its.
+Proof. intros fuel text its st'. apply accepted_is_covered. reflexivity. Qed.
+Print Assumptions C07_accepted_covers_whole_text.
+
+(* the suppressed terminals of the grammar are fixed punctuation and keywords: what the tree does not keep carries no
+   information of the input *)
+Example C07_nonvacuous :
+  exists its st', parse_text spec_grammar 200 "class A { A(int x = f(1, 2)); }; // end" = Match its st' /\
+                  map string_of (leaves its) = ["class"; "A"; "A"; "int"; "x"; "f(1, 2)"].
+Proof. eexists. eexists. split; vm_compute; reflexivity. Qed.
